@@ -173,6 +173,14 @@ def run_check(prop, tier, seed):
             for d in r.diags:
                 c, origin, label = j.asm.locate(d.line)
                 if c is None:
+                    # a trait-level postcondition (mirror traits VFrom/VTryFrom/IA_*: `ensures Self::..._post(value, r)` lives in the prelude)
+                    # is reported AT the trait declaration, with the implementing function as a secondary span: attribute it to that unit
+                    for rl in getattr(d, "related_lines", []):
+                        c2, origin2, label2 = j.asm.locate(rl)
+                        if c2 is not None:
+                            c, origin, label = c2, origin2, "trait-level contract (declared at line %d)" % d.line
+                            break
+                if c is None:
                     if j.asm.canary_line and abs(d.line - j.asm.canary_line) <= 1:
                         canary_hit = True
                         continue
